@@ -37,6 +37,11 @@ func (m resErrMarshaler) MarshalJSON() ([]byte, error) {
 	return nil, res.ErrNotFound
 }
 
+// panicMarshaler panics while the response is being encoded (a handler panic in the middle of a reply)
+type panicMarshaler struct{}
+
+func (panicMarshaler) MarshalJSON() ([]byte, error) { panic("marshaler panics") }
+
 type invalidMarshaler struct{}
 
 func (invalidMarshaler) MarshalJSON() ([]byte, error) { return []byte(`{"a":`), nil }
@@ -58,6 +63,7 @@ var c07Values = []struct {
 	{"nan", math.NaN(), false},
 	{"badmarshaler", badMarshaler{}, false},
 	{"invalidmarshaler", invalidMarshaler{}, false},
+	{"panicmarshaler", panicMarshaler{}, false},
 	{"reserrmarshaler", resErrMarshaler{}, false},
 	{"wrappedreserrmarshaler", resErrMarshaler{wrap: true}, false},
 }
